@@ -4,14 +4,24 @@ import (
 	"encoding/json"
 	"fmt"
 	"math/big"
+	"syscall"
 	"testing"
+	"testing/synctest"
 
 	"verif/sim/kernel"
 )
 
+func wallNow() int64 {
+	var tv syscall.Timeval
+	syscall.Gettimeofday(&tv)
+	return tv.Sec*1000000 + int64(tv.Usec)
+}
+
 func TestSmoke(t *testing.T) {
 	rig := &kernel.Rig{Property: "CXX", Name: "smoke", Run: func(c *kernel.Ctx) {
 		kernel.Bubble(c, false, func() {
+			t0 := wallNow()
+			lap := func(what string) { t1 := wallNow(); fmt.Printf("%-20s %6d us\n", what, t1-t0); t0 = t1 }
 			wc := WorldCfg{NUsers: 3, NVals: 1, IsTrie: false}
 			for i := 0; i < 3; i++ {
 				wc.Balances = append(wc.Balances, new(big.Int).Mul(big.NewInt(1e18), big.NewInt(100)))
@@ -22,27 +32,33 @@ func TestSmoke(t *testing.T) {
 				c.HarnessTrouble("world: %v", err)
 				return
 			}
+			lap("world")
 			defer w.Cleanup()
 			u := w.Users[0]
 			for n := uint64(0); n < 3; n++ {
 				tx := u.Transfer(n, w.Sinks[0], big.NewInt(1000), 0, nil)
-				fmt.Println("add", n, w.SubmitNow(int(n), tx))
+				lap("sign")
+				w.SubmitNow(int(n), tx)
+				lap("submit")
 			}
-			tx := u.Transfer(5, w.Sinks[0], big.NewInt(1000), 0, nil)
-			fmt.Println("add future", w.SubmitNow(9, tx))
+			for i := 0; i < 5; i++ {
+				synctest.Wait()
+			}
+			lap("5 waits")
 			for h := 0; h < 3; h++ {
-				b, site, msg, p := w.Propose(w.MaxTxs(), nil, false)
-				fmt.Println("propose", b != nil, site, msg, p)
+				b, _, _, p := w.Propose(w.MaxTxs(), nil, false)
+				lap("propose")
 				if p {
 					return
 				}
-				r := w.Commit(b)
-				fmt.Println("commit", r, len(b.Data.Txs), w.Height())
-				fmt.Println(w.Chain.Mempool.Stats())
-				fmt.Println("ledger", w.Led.Get(u.Addr).Nonce, w.Led.Get(u.Addr).Balance, "state", w.Chain.App.GetLatestStateDB().GetNonce(u.Addr), w.Chain.App.GetLatestStateDB().GetBalance(u.Addr))
+				w.Commit(b)
+				lap("commit")
+				w.Chain.Mempool.Reap(100)
+				lap("reap")
 			}
 			w.StopMempool(w.Chain)
 			w.StopMempool(w.Rep)
+			lap("stop")
 		})
 	}}
 	res := kernel.Execute(t, rig, kernel.Quick, kernel.NewTape(1), nil)
